@@ -414,14 +414,6 @@ Definition apply_gate (name : string) (args : list expr) (qubits : list qarg) (i
       sguard (Nat.eqb (List.length bits) (List.length (g_qubits gd))) EValidation;;~
       pvals <~ smapM (fun e => seval0 e false) args;;
       sguard (negb (smem name (s_gstack s))) EValidation;;~       (* recursive definition *)
-      (* a free identifier in a gate body can only be a global constant; the implementation resolves
-         it in the caller's innermost scope instead *)
-      (if forallb (fun st => match st with
-                             | SGate ms _ gargs _ => forallb (fun e => forallb (fun x => smem x (g_params gd) || is_constant_name x) (expr_ids e)) (gargs ++ mod_exprs ms)
-                             | SPhase ms a _ => forallb (fun x => smem x (g_params gd) || is_constant_name x) (flat_map expr_ids (a :: mod_exprs ms))
-                             | _ => true
-                             end) (g_body gd)
-       then sret tt else known "free identifier in a gate body" (sret tt));;~
       (fun s => Ok (tt, mkS (s_env s) (s_gates s) (s_subs s) (s_incl s) (s_nq s) (name :: s_gstack s)));;~
       push_frame FGate (map (fun p => (fst p, BVar (SFloat 64) (Some (snd p)) true)) (combine (g_params gd) pvals)
                         ++ map (fun p => (fst p, BQubits [snd p])) (combine (g_qubits gd) bits));;~
@@ -571,11 +563,7 @@ Definition exec_for (t : ctype) (var : string) (set : forset) (body : list stmt)
            | FOtherSet => schecked
            end);;
   sconcatM (fun v =>
-              cv <~ (match store ty v with
-                     | Ok cv => if pyval_eqb cv v then sret cv
-                                else known "loop variable not converted to its declared type" (sret cv)
-                     | Err e => known "loop variable not converted to its declared type" (sfail e)
-                     end);;
+              cv <~ slift (store ty v);;
               exec_block FBlock [(var, BVar ty (Some cv) false)] body) vals.
 
 Definition all_case_values (cases : list (list expr * list stmt)) : list expr := flat_map fst cases.
